@@ -145,6 +145,12 @@ def run(facts, R):
         reads = [i for i, t in b.calls() if callee_matches(t["callee"], reader)]
         rrv = [(i, t) for i, t in b.calls() if callee_matches(t["callee"], SR + "route_request_view")]
         wr = [(i, t) for i, t in b.calls() if callee_matches(t["callee"], writer)]
+        if not wr and getattr(b, "changed", False):
+            # the frame writer was renamed / moved (a method of a small struct): any function of this module that encodes a header
+            # and writes it is the writer
+            from rules.common import derived_frame_writers
+            dw = {p_ for p_ in derived_frame_writers(facts) if p_.split("::")[0] == path.split("::")[0]}
+            wr = [(i, t) for i, t in b.calls() if t["callee"]["path"] in dw]
         R.check(len(rrv) == 1, "handler-once", path, "one route_request_view per iteration", "found %d" % len(rrv), b.span)
         R.floor("response-count", len(wr), 1, "response writes in " + path)
         for i, t in rrv:
@@ -160,7 +166,25 @@ def run(facts, R):
             again = i in b.reachable(b.succs(i), avoid=reads + [x for x, _ in wr if x != i])
             R.check(not again, "response-count", path, "one response per request", "the response write can repeat without reading another request", t.get("span"))
             # echo: the query argument is response_echo_query(resp, view.query) of this request
-            qarg = s.op(t["args"][2])
+            # (the argument bound to the writer's `query` parameter, wherever it sits in the list)
+            qi = 2
+            wbody = facts.bodies.get(t["callee"]["path"])
+            if wbody is not None:
+                named = [k_ for k_ in range(1, wbody.argc + 1) if wbody.debug_name(k_) == "query"]
+                if len(named) == 1 and named[0] - 1 < len(t["args"]):
+                    qi = named[0] - 1
+            qarg = s.op(t["args"][qi]) if qi < len(t["args"]) else ("unknown", "?")
+            if not is_call(qarg, "message::response_echo_query"):
+                # ... or a field of a small struct the writer is a method of (`ViewResponse { resp, query }.write_to(w)`)
+                cands = []
+                for a_ in t["args"]:
+                    v_ = s.op(a_)
+                    while v_[0] == "call" and v_[1].rsplit("::", 1)[-1] in ("deref", "as_ref", "borrow") and len(v_[2]) == 1:
+                        v_ = v_[2][0]
+                    if v_[0] == "agg" and v_[3]:
+                        cands += [x_ for n_, x_ in v_[3] if n_ == "query" and is_call(x_, "message::response_echo_query")]
+                if len(cands) == 1:
+                    qarg = cands[0]
             ok = is_call(qarg, "message::response_echo_query") and render(qarg[2][1]).endswith(".query") and "from_slice" in render(qarg[2][1]) and "route_request_view" in render(qarg[2][0])
             R.check(ok, "echo-rule", path, "writes response_echo_query(resp, view.query)", "query written is %s" % render(qarg)[:200], t.get("span"), "echo of this request's query")
         # response-flushed: a written response is flushed before the loop blocks on the next request (or succeeds/ends)
@@ -204,11 +228,13 @@ def run(facts, R):
     except Exception as e:
         sub7.bad("anchor-resolution", "<crate>", "shared-C07-rules", "the shared handler-twins rules could not run: %s" % e)
     for inst in sub7.instances:
-        if inst["rule"] in ("handler-twins",) and inst["verdict"] == "holds":
+        if inst["rule"] in ("handler-twins", "request-is-the-routing-key") and inst["verdict"] == "holds":
             R.instances.append(inst)
     for v in sub7.violations:
         if v["rule"] in ("handler-twins", "anchor-resolution"):
             R.bad("transport-agreement", v["fn"], v["what"], v["msg"], v.get("site"), v.get("path"))
+        elif v["rule"] == "request-is-the-routing-key":
+            R.bad("request-is-the-routing-key", v["fn"], v["what"], v["msg"], v.get("site"), v.get("path"))
 
     # ---------------- id-echo ---------------------------------------------------------------------------------
     id_echo(facts, R)
